@@ -57,3 +57,15 @@ func c09boilerplate(path, buildTag, genBy string) ([]byte, error) {
 }
 
 func c09fileType() *generator.DefaultFileType { return generator.NewGoFile() }
+
+// c13mergedInit writes text through a snippet writer after merging a side writer (Dup) whose template
+// failed; returns what the writer reports at the end.
+func c13mergedInit(c *generator.Context, w io.Writer, text string) error {
+	sw := generator.NewSnippetWriter(w, c, "$", "$")
+	var side bytes.Buffer
+	sub := sw.Dup(&side)
+	sub.Do("// kind: $.NoSuchField$", struct{}{})
+	sw.Merge(&side, sub)
+	sw.Do(text, nil)
+	return sw.Error()
+}
